@@ -494,6 +494,22 @@ int main(void)
 			counting = 0;
 			show(r, dst ? find_id(dst) : -1);
 		}
+		else if (NW == 2 && !strcmp(W[0], "copyd"))
+		{
+			/* deep copy with the DEFAULT shallow-copy function of a tree whose root carries user data: documented to fail
+			 * (the library cannot copy user data it does not know); the failure must be silent - no callback of the
+			 * caller's runs (least of all for a node of the half-built copy), nothing is released, nothing is left behind */
+			struct json_object *o = node(W[1], &ok);
+			if (!ok) { puts("harness: dead handle"); continue; }
+			if (!o->_user_delete && !o->_userdata) { puts("harness: bad operand"); continue; }
+			struct json_object *dst = NULL;
+			counting = 1;
+			int r = json_object_deep_copy(o, &dst, NULL);
+			counting = 0;
+			if (dst)
+				json_object_put(dst);
+			show(r, dst ? 9999 : -1);
+		}
 		else if (NW == 4 && !strcmp(W[0], "ptrset"))
 		{
 			struct json_object *o = node(W[1], &ok);
